@@ -114,11 +114,23 @@ func (e *Encoder) Write(_ context.Context, f frame.Frame) error {
 // DecodingReader provides a Reader on top of a gob stream
 // encoded with batches of rows stored in column-major order.
 type decodingReader struct {
-	dec     *gobDecoder
-	crc     hash.Hash32
+	dec *gobDecoder
+	crc hash.Hash32
+	// nread counts the bytes consumed from the underlying stream. It is
+	// used to tell a clean end of stream (no byte of a next batch could be
+	// read) from a stream that ends inside a batch.
+	nread   *byteCounter
 	scratch frame.Frame
 	buf     frame.Frame
 	err     error
+}
+
+// byteCounter is an io.Writer that counts the bytes written to it.
+type byteCounter struct{ n int64 }
+
+func (c *byteCounter) Write(p []byte) (int, error) {
+	c.n += int64(len(p))
+	return len(p), nil
 }
 
 // NewDecodingReader returns a new Reader that decodes values from
@@ -137,20 +149,39 @@ func NewDecodingReader(r io.Reader) Reader {
 	if _, ok := r.(io.ByteReader); !ok {
 		r = bufio.NewReader(r)
 	}
-	r = io.TeeReader(r, crc)
-	return &decodingReader{dec: newGobDecoder(readerByteReader{Reader: r}), crc: crc}
+	nread := new(byteCounter)
+	r = io.TeeReader(r, io.MultiWriter(crc, nread))
+	return &decodingReader{dec: newGobDecoder(readerByteReader{Reader: r}), crc: crc, nread: nread}
 }
 
 func (d *decodingReader) Read(ctx context.Context, f frame.Frame) (n int, err error) {
 	if d.err != nil {
 		return 0, d.err
 	}
+	defer func() {
+		// Decoding a damaged stream can drive gob and the frame code into
+		// states that panic: such a stream is corrupt, not a program error.
+		if e := recover(); e != nil {
+			d.err = errors.E(errors.Integrity, fmt.Errorf("corrupt stream: %v", e))
+			n, err = 0, d.err
+		}
+	}()
 	for d.buf.Len() == 0 {
 		d.crc.Reset()
+		start := d.nread.n
 		if d.err = d.dec.Decode(&n); d.err != nil {
 			if d.err == io.EOF {
-				d.err = EOF
+				if d.nread.n != start {
+					// The stream ended inside a batch.
+					d.err = errors.E(errors.Integrity, io.ErrUnexpectedEOF)
+				} else {
+					d.err = EOF
+				}
 			}
+			return 0, d.err
+		}
+		if n < 0 {
+			d.err = errors.E(errors.Integrity, fmt.Errorf("corrupt stream: batch of %d rows", n))
 			return 0, d.err
 		}
 		// In most cases, we should be able to decode directly into the
@@ -213,7 +244,8 @@ func (d *decodingReader) decode(f frame.Frame) error {
 		err := d.dec.DecodeValue(v)
 		if err != nil {
 			if err == io.EOF {
-				return EOF
+				// We are inside a batch: the stream is truncated.
+				return errors.E(errors.Integrity, io.ErrUnexpectedEOF)
 			}
 			return err
 		}
